@@ -171,6 +171,30 @@ func vfE8NameAt(f *FileLogger, t time.Time) string {
 	return strings.Replace(f.filenameFormat, "<DATETIME>", strftime(f.opts.DatetimeFormat, t), -1)
 }
 
+// vfE8ProbeCloseClears runs the real Close() once on a throw-away logger whose finished file moves from a work
+// dir to an output dir: does it clear f.out on that path (fix F44) or return with the closed descriptor still
+// in place (tree before the fix)? The answer is the model parameter Cfg.closeClears.
+func vfE8ProbeCloseClears() bool {
+	dir, err := os.MkdirTemp("", "vfe8probe")
+	if err != nil {
+		return false
+	}
+	defer os.RemoveAll(dir)
+	w, o := filepath.Join(dir, "w"), filepath.Join(dir, "o")
+	os.MkdirAll(w, 0o755)
+	os.MkdirAll(o, 0o755)
+	opts := NewOptions()
+	opts.WorkDir, opts.OutputDir, opts.Channel = w, o, "c"
+	fh, err := os.Create(filepath.Join(w, "probe"))
+	if err != nil {
+		return false
+	}
+	f := &FileLogger{logf: func(lvl lg.LogLevel, f string, args ...interface{}) {}, opts: opts, topic: "t", out: fh, writer: fh,
+		filename: "probe"}
+	f.Close()
+	return f.out == nil
+}
+
 func TestVerifToFileChild(t *testing.T) {
 	casePath := os.Getenv("VF_E8_CASE")
 	if casePath == "" {
@@ -226,8 +250,8 @@ func TestVerifToFileChild(t *testing.T) {
 	}
 	say := func(op string) { fmt.Fprintf(res, "OP %s\n", op) }
 	ans := func(a string) { fmt.Fprintf(res, "ANS %s\n", a) }
-	say(fmt.Sprintf("tf conf %d %d %d %d %d %d %d", b(sc.GZIP), sc.RotateSize, sc.RotateInterval, b(sc.WorkDir),
-		b(sc.SkipEmpty), sc.MaxInFlight, b(hasRev)))
+	say(fmt.Sprintf("tf conf %d %d %d %d %d %d %d %d", b(sc.GZIP), sc.RotateSize, sc.RotateInterval, b(sc.WorkDir),
+		b(sc.SkipEmpty), sc.MaxInFlight, b(hasRev), b(vfE8ProbeCloseClears())))
 	ans("ok")
 	start := time.Now()
 	for _, p := range sc.Pre {
